@@ -397,6 +397,31 @@ theorem qr_upper (A Q R : Matrix ℝ) (h : qr A = some (Q, R)) :
 example : ∃ Q R, qr (⟨[⟨3⟩, ⟨4⟩], 2, 1⟩ : Matrix Fp) = some (Q, R) ∧ Q.rows = 2 ∧ Q.columns = 2 :=
   ⟨_, _, rfl, rfl, rfl⟩
 
+/-- **On the property's domain (linearly independent columns) no reflection divides by zero.**
+    `qrState A c` is the state of the loop after `c` iterations (`qrLoop A` is
+    `qrState A (min (M−1) N)` by definition).  If the columns of the real `M × N` input are
+    linearly independent (`mulVec` injective), the column the `c`-th reflection is built from is
+    non-zero for every iteration `c`, hence `‖u‖ > 0` and the normalisation `u / ‖u‖` is a genuine
+    division.  So on these inputs `qr_product` / `qr_upper` do not rest on Lean's `x / 0 = 0`. -/
+theorem qr_no_zero_division (A : Matrix ℝ)
+    (hinj : Function.Injective (toMat A.rows A.columns A).mulVec) (c : ℕ)
+    (hc : c < min (A.rows - 1) A.columns) :
+    0 < Real.sqrt (sumSq (householderU
+      ((List.range (A.rows - c)).map fun t => get (qrState A c).2 (c + t) c))) := by
+  obtain ⟨k, hk⟩ := qr_column_ne_zero A hinj c (by omega) (by omega)
+  exact householder_defined _ k hk
+
+example : qrLoop (⟨[3, 4], 2, 1⟩ : Matrix ℝ) = qrState ⟨[3, 4], 2, 1⟩ (min (2 - 1) 1) := rfl
+
+/-- Non-vacuity: the single column `[3, 4]ᵀ` is linearly independent. -/
+example : Function.Injective (toMat 2 1 (⟨[3, 4], 2, 1⟩ : Matrix ℝ)).mulVec := by
+  intro y z h
+  have h0 := congrFun h 0
+  simp [Matrix.mulVec, dotProduct, toMat, Decomp.get, EasyMl.Matrix.getIndex] at h0
+  funext i
+  fin_cases i
+  simpa using h0
+
 /-- **QR is absent exactly for wide inputs** (`N > M`); in particular it is present for `1 × 1`
     and `M × 1` inputs.  (This is the repaired control flow; see `qr_asWritten_panics_iff`.) -/
 theorem qr_none_iff_wide {α : Type} [Add α] [Sub α] [Mul α] [Div α] [Neg α] [Zero α] [One α]
